@@ -18,7 +18,16 @@ func (w *World) Apply(e Event) {
 	case "cycle":
 		w.cycle()
 	case "scrape":
-		w.scrape(e.I)
+		w.scrape(e.I, false)
+	case "scrape_cycle":
+		w.scrape(e.I, true)
+	case "down":
+		w.T[e.H].Down = true
+		if w.Cfg.DownAsFault {
+			w.BudgetF--
+		} else {
+			w.BudgetD--
+		}
 	case "expire":
 		w.now = w.now.Add(time.Duration(w.Cfg.Opt.IdleSec+1) * time.Second)
 		vrt.SetClock(w.now)
@@ -53,6 +62,9 @@ func (w *World) Apply(e Event) {
 	case "restart":
 		if err := w.shards[e.I].s.Restart(false); err != nil {
 			panic(fmt.Sprintf("restart: %v", err))
+		}
+		for h := range w.since[e.I] {
+			w.since[e.I][h] = 0 // the sidecar lost its counters; the hand-over starts counting again
 		}
 		w.BudgetF--
 	case "shrink":
@@ -90,6 +102,7 @@ func (w *World) cycle() {
 	for i := range w.shards {
 		o.After = append(o.After, w.Assignment(i))
 	}
+	w.ghostUpdate(o)
 	// one-cycle faults end; the controller follows the last scale request
 	for _, s := range w.shards {
 		s.postLost, s.postAppliedErr, s.unready, s.getFail, s.outOfSync = false, false, false, false, false
@@ -101,8 +114,66 @@ func (w *World) cycle() {
 	w.Cycles++
 }
 
-// scrape: the Prometheus of shard i scrapes every target of the sidecar's current assignment.
-func (w *World) scrape(i int) {
+// ghostUpdate maintains the harness' own hand-over bookkeeping from what the sidecars really hold
+// before and after the cycle, and judges every removed copy whose move began earlier.
+func (w *World) ghostUpdate(o *CycleObs) {
+	w.Ghost = nil
+	for i := range o.After {
+		if i >= len(o.Before) {
+			continue
+		}
+		for h, a := range o.After[i] {
+			b, was := o.Before[i][h]
+			switch {
+			case !was:
+				w.since[i][h] = 0
+				w.moving[i][h] = a.State == "in_transfer"
+			case b.State == "" && a.State == "in_transfer":
+				w.moving[i][h] = true
+				w.since[i][h] = 0
+			case b.State == "in_transfer" && a.State == "":
+				w.moving[i][h] = false
+			}
+		}
+		for h := range o.Before[i] {
+			if _, still := o.After[i][h]; still {
+				continue
+			}
+			t := w.T[h]
+			if w.moving[i][h] && t != nil && t.Discovered {
+				otherMoving := false
+				best := -1
+				for j := range o.Before {
+					if j == i {
+						continue
+					}
+					if _, ok := o.Before[j][h]; ok {
+						if w.moving[j][h] {
+							otherMoving = true
+						} else if w.since[j][h] > best {
+							best = w.since[j][h]
+						}
+					}
+				}
+				switch {
+				case otherMoving:
+				case best < 0:
+					w.Ghost = append(w.Ghost, fmt.Sprintf("no-destination-copy|shard %d dropped target %d whose move had begun, no other shard holds a normal copy", i, h))
+				case best < 3:
+					w.Ghost = append(w.Ghost, fmt.Sprintf("destination-scrapes<3|shard %d dropped target %d whose move had begun; the destination completed %d scrape(s) of it", i, h, best))
+				case w.since[i][h] < 3:
+					w.Ghost = append(w.Ghost, fmt.Sprintf("source-scrapes<3|shard %d dropped target %d after %d completed scrape(s) since its move began", i, h, w.since[i][h]))
+				}
+			}
+			delete(w.since[i], h)
+			delete(w.moving[i], h)
+		}
+	}
+}
+
+// scrape: the Prometheus of shard i scrapes every target of the sidecar's current assignment. With
+// cycleInFlight a whole coordination cycle runs while the first request is being served.
+func (w *World) scrape(i int, cycleInFlight bool) {
 	s := w.shards[i]
 	info := s.s.TM.TargetsInfo()
 	var hs []uint64
@@ -112,8 +183,17 @@ func (w *World) scrape(i int) {
 		}
 	}
 	sort.Slice(hs, func(a, b int) bool { return hs[a] < hs[b] })
-	for _, h := range hs {
+	for k, h := range hs {
+		if k == 0 && cycleInFlight {
+			w.inflight = func() { w.cycle() }
+		}
 		s.s.Scrape(rig.ProxyURL("j", h, "http", fmt.Sprintf("t%d:80", h), "/metrics", nil))
+		w.inflight = nil
+		if i < len(w.since) {
+			if _, ok := w.since[i][h]; ok && w.since[i][h] < 1000 {
+				w.since[i][h]++
+			}
+		}
 	}
 }
 
@@ -133,8 +213,22 @@ func (w *World) Enabled(progressOnly bool) []Event {
 			}
 		}
 	}
+	if w.Cfg.Inflight {
+		for i, s := range w.shards {
+			if len(s.s.TM.TargetsInfo().Status) > 0 {
+				evs = append(evs, Event{Kind: "scrape_cycle", I: i})
+			}
+		}
+	}
 	if progressOnly {
 		return evs
+	}
+	if w.BudgetD > 0 || (w.Cfg.DownAsFault && w.BudgetF > 0) {
+		for _, h := range w.order {
+			if t := w.T[h]; t.Discovered && !t.Down {
+				evs = append(evs, Event{Kind: "down", H: h})
+			}
+		}
 	}
 	if w.BudgetW > 0 {
 		for _, h := range w.order {
@@ -167,10 +261,10 @@ const timesCap = 4
 // Key is the canonical form of the state (see DESIGN.md 2.4): what decisions can depend on.
 func (w *World) Key() string {
 	var sb strings.Builder
-	fmt.Fprintf(&sb, "W%d F%d|", w.BudgetW, w.BudgetF)
+	fmt.Fprintf(&sb, "W%d F%d D%d|", w.BudgetW, w.BudgetF, w.BudgetD)
 	for _, h := range w.order {
 		t := w.T[h]
-		fmt.Fprintf(&sb, "T%d:%v/%v/%d/%d ", h, t.Discovered, t.Healthy, t.Kept, t.Total)
+		fmt.Fprintf(&sb, "T%d:%v/%v/%v/%d/%d ", h, t.Discovered, t.Healthy, t.Down, t.Kept, t.Total)
 	}
 	for i, s := range w.shards {
 		info := s.s.TM.TargetsInfo()
@@ -205,6 +299,20 @@ func (w *World) Key() string {
 			}
 			fmt.Fprintf(&sb, "%d:%s/%s/%d/%d/%d/%v ", h, e.TargetState, e.Health, tm, e.Series, e.TotalSeries, e.VerifLastSeries())
 		}
+		// ghost bookkeeping (capped like the counters)
+		var gh []uint64
+		for h := range w.since[i] {
+			gh = append(gh, h)
+		}
+		sort.Slice(gh, func(a, b int) bool { return gh[a] < gh[b] })
+		sb.WriteString(" g:")
+		for _, h := range gh {
+			n := w.since[i][h]
+			if n > timesCap {
+				n = timesCap
+			}
+			fmt.Fprintf(&sb, "%d=%d%v ", h, n, w.moving[i][h])
+		}
 		// the store file agrees with memory? (only its parsed targets matter; included through info.Targets)
 		if _, err := os.Stat(filepath.Join(s.dir, "kvass-shard.json")); err != nil {
 			sb.WriteString("NOSTORE")
@@ -228,7 +336,7 @@ func (w *World) Converged() (bool, string) {
 			if w.oversized(t) {
 				return false, fmt.Sprintf("oversized target %d assigned to shard %d", h, i)
 			}
-			if c.Health != "up" {
+			if c.Health != "up" && !(t.Down && c.Health == "down") {
 				return false, fmt.Sprintf("target %d on shard %d has health %s", h, i, c.Health)
 			}
 			count[h]++
